@@ -1,4 +1,5 @@
 """C20 Build configurations"""
+import elevels
 import elock
 import eptr
 import ecanon
@@ -71,4 +72,8 @@ def run(ctx):
                 "sequential recursor happens exactly at 0, and the SequentialRecursor never asks for a switch.")
     nrd = elock.run_recursor_depth(ctx, F)
     ctx.floor("E-REC.depth", "recursor obligations", nrd, 6)
+    ctx.explain("E-LEVELS: Manager::levels() (forward, backward and mixed iteration) and Manager::level(no) of both managers pair "
+                "every level number with that level's unique table (interpreted on a four-level model).")
+    nlv = elevels.run(ctx, F)
+    ctx.floor("E-LEVELS", "interpreted iteration / access situations", nlv, 16)
     ctx.not_decided = "observational equivalence of results and node counts across configurations"
